@@ -2,8 +2,8 @@
 
 PROP = dict(
     level="proof",
-    lean_modules=['PopsModel.Props.C01'],
-    theorems=['Pops.C01_cell_step', 'Pops.C01_move', 'Pops.C01_history'],
+    lean_modules=['PopsModel.Props.C01', 'PopsModel.Props.C01Step'],
+    theorems=['Pops.C01_cell_step', 'Pops.C01_move', 'Pops.C01_history', 'Pops.C01_generators', 'Pops.C01_model_step'],
     commands=[],
     runs={
         "quick": [('h_host', 'pool', 0, 1500), ('h_model', 'model', 0, 400)],
@@ -17,7 +17,7 @@ PROP = dict(
 
 META = dict(engine="h_host", design_ref="DESIGN.md section 3, C01",
     technique='Lean 4 induction over operation histories of the L1 model + ledger predicates evaluated on the implementation after every action',
-    text="Proof: for every action of the L1 model, all arguments in the documented domain and all random draws, the ledger of its class holds; by induction over any history (any interleaving, any length) hosts after = hosts before - died - removed by treatments, and no action creates a host. Tied to the code by evaluating the ledger predicates on the implementation's rasters after each individual action (pool operations and every action block of Model::run_step), and by exact comparison of every operation with the L1 functions (reported under the mechanism properties C04, C05, C10-C12, C17).",
+    text="Proof: for every action of the L1 model, all arguments in the documented domain and all random draws, the ledger of its class holds; by induction over any history (any interleaving, any length) hosts after = hosts before - died - removed by treatments, and no action creates a host. Tied to the code by evaluating the ledger predicates on the implementation's rasters after each individual action (pool operations and every action block of Model::run_step), by replaying every action block of Model::run_step through the generator (actionGen) the step model is composed of - C01_model_step: hosts after a whole model step = before - reported deaths - removed by treatments, for every plan - and by exact comparison of every operation with the L1 functions (reported under the mechanism properties C04, C05, C10-C12, C17).",
     note='Trusted: Lean kernel + propext/Classical.choice/Quot.sound; hand-written L1 model of host_pool.hpp / treatments.hpp / actions.hpp (Model/Host.lean, Treat.lean, Actions.lean); harness and driver. int as unbounded Int; ratios as exact Rat on dyadic inputs (k/64); std::shuffle assumed to produce a permutation (draws are inferred from the observed difference and checked for validity).')
 
 ENGINES = [
